@@ -219,19 +219,22 @@ type EDNSOption struct {
 }
 
 type ClientOp struct {
-	Idx    int       `json:"idx"`
-	Conn   int       `json:"conn"`
-	AtUs   int64     `json:"at_us"`
-	ID     uint16    `json:"id"`
-	Token  string    `json:"token"`
-	Labels [][]byte  `json:"labels"`
-	Type   uint16    `json:"type"`
-	Class  uint16    `json:"class"`
-	Bits   uint16    `json:"bits"`
-	NQ     int       `json:"nq"`
-	EDNS   *EDNSSpec `json:"edns,omitempty"`
-	Raw    []byte    `json:"raw,omitempty"` // garbage instead of a query
-	Method string    `json:"method,omitempty"`
+	Idx    int      `json:"idx"`
+	Conn   int      `json:"conn"`
+	AtUs   int64    `json:"at_us"`
+	ID     uint16   `json:"id"`
+	Token  string   `json:"token"`
+	Labels [][]byte `json:"labels"`
+	Type   uint16   `json:"type"`
+	Class  uint16   `json:"class"`
+	Bits   uint16   `json:"bits"`
+	NQ     int      `json:"nq"`
+	// DistinctQ: the questions after the first are asked under names that end in
+	// a label of their own (no common suffix).
+	DistinctQ bool      `json:"distinct_q,omitempty"`
+	EDNS      *EDNSSpec `json:"edns,omitempty"`
+	Raw       []byte    `json:"raw,omitempty"` // garbage instead of a query
+	Method    string    `json:"method,omitempty"`
 	// HTTPVariant: "" | bad_accept | bad_ctype | bad_b64 | oversize | put
 	HTTPVariant string `json:"http_variant,omitempty"`
 	// Probe: a plain query with a small, promptly given answer, placed after the
